@@ -29,7 +29,7 @@ from vlib import f2b, fs2b, b2f, b2fs, ints
 from props import c01
 
 ID = "C08"
-GEN = ["Combinators", "ArrCombinators", "Leaves", "Misc", "Dist", "Params", "Flows"]
+GEN = ["Combinators", "ArrCombinators", "JaxTransforms", "Leaves", "Misc", "Dist", "Params", "Flows"]
 RULE = ("random expression trees of array bijections (elementwise leaves with per-element non-default parameters, Chain, Invert, "
         "Concatenate and Stack along every valid axis incl. negative, Partial with int/slice/int-array/bool-array/tuple indices, Reshape, "
         "EmbedCondition, Scan, Vmap with mapped or broadcast parameters and mapped/broadcast condition), ranks 0-3, conditional and "
@@ -42,7 +42,8 @@ TRUSTED = c01.TRUSTED + [
     "Model/ArrJnp.lean: specs of jnp.array_split / split / squeeze / concatenate / stack / reshape / x[idxs] / .at[idxs].set, zip(strict=True), zip(*), sum, accumulate, range(n)[i] that the generated bodies call (total; guards stated in the theorems; validated here against jnp directly and through the trees)",
     "tools/py2lean/targets_arrcomb.py: typing sheet of the generated array combinators (field types; statement-level argument-check calls recorded as guards)",
     "Partial's idxs are resolved to flat positions with NumPy indexing in the harness (in-range indices)",
-    "Scan and Vmap enter the model through their defining equivalences (Chain of unstacked layers / Stack along axis 0 of per-slice bijections); lax.scan and filter_vmap themselves are JAX's",
+    "Scan and Vmap enter the HAND model through their defining equivalences (Chain of unstacked layers / Stack along axis 0 of per-slice bijections); lax.scan and filter_vmap themselves are JAX's",
+    "Gen/JaxTransforms.lean: the methods of Scan / Vmap, _filter_scan and the nested closures are REGENERATED from jax_transforms.py (py2meth.py, sheet targets_jaxtr.py); trusted are the sheet's typing (a stacked module = the list of its unstacked layer records; None in a tuple = unit; the int literal 0 of the initial carry = the scalar 0) and the meanings of Model/JaxTrWorld.lean: lax.scan (reference loop, reversed list when reverse=True), eqx.partition/combine on a stacked module, eqx.filter_vmap (per-slice application, outputs stacked) — validated here on real Scan / Vmap objects (tree kinds SCAN / VMAP through the generated methods, op jaxtrvmap, premade flows through Flows.scanOf = generated Scan)",
 ]
 ASSUMPTIONS = ["shape algebra theorems (declared shape = jnp.stack/jnp.concatenate shape, negative axes) live in Props/C13 (ArgCheck model) and are re-exported here"]
 TOL = dict(rtol=1e-8, atol=1e-10)
@@ -185,13 +186,13 @@ def rand_atree(rng, shape, depth, allow_cond=True):
         obj = B.Partial(c.obj, jidx, shape)
         return Node("PAR", shape, obj, ["PAR", ints(shape), ints(sub), ints(posarr.ravel())] + c.tokens, c.cond, [c], idx=idx)
     if kind == "SCAN":
-        L = rng.choice([1, 2, 3])
+        L = rng.choice([1, 2, 3, 4])
         n = size(shape)
         locs = np.asarray([[rng.uniform(-1, 1) for _ in range(n)] for _ in range(L)]).reshape((L,) + shape)
         scs = np.asarray([[rng.choice([-1, 1]) * math.exp(rng.uniform(-0.5, 0.5)) for _ in range(n)] for _ in range(L)]).reshape((L,) + shape)
         layers = eqx.filter_vmap(lambda l, s: fj.affine(l, s))(jnp.asarray(locs), jnp.asarray(scs))
         obj = B.Scan(layers)
-        toks = ["CH", str(L)]
+        toks = ["GSCAN", str(L)]   # `atree`: the GENERATED Scan methods; `atreeh`: the hand model (Chain of the unstacked layers)
         for i in range(L):
             toks += ["EW", str(n)] + sum((["A", f2b(l), f2b(s)] for l, s in zip(locs[i].ravel(), scs[i].ravel())), [])
         return Node("SCAN", shape, obj, toks, False, [], layers=[(locs[i], scs[i]) for i in range(L)], nondefault=True)
@@ -210,7 +211,7 @@ def rand_atree(rng, shape, depth, allow_cond=True):
             s0 = np.asarray([rng.choice([-1, 1]) * math.exp(rng.uniform(-0.5, 0.5)) for _ in range(n)]).reshape(cshape)
             locs, scs = np.stack([l0] * k), np.stack([s0] * k)
             obj = B.Vmap(fj.affine(l0, s0), axis_size=k)
-        toks = ["STK", ints(shape), "0", ints(cshape), str(k)]
+        toks = ["GVMAP", ints(cshape), "1" if mapped else "0", str(k)]   # `atree`: the GENERATED Vmap methods; `atreeh`: Stack along axis 0
         for i in range(k):
             toks += ["EW", str(n)] + sum((["A", f2b(l), f2b(s)] for l, s in zip(locs[i].ravel(), scs[i].ravel())), [])
         return Node("VMAP", shape, obj, toks, False, [], slices=[(locs[i], scs[i]) for i in range(k)], nondefault=True)
@@ -317,6 +318,129 @@ def prim_correspondence(c, tier, rng):
             c.mismatch("jnp-primitive-spec-vs-jnp", op=line[:300], model=got[:300], impl=want, **info)
 
 
+# ------------------------------------------------------------------ the REGENERATED Scan / Vmap on objects the random trees do not reach
+def _stack_modules(mods):
+    """stack the array leaves of structurally equal modules along a new leading axis (what `eqx.filter_vmap(ctor)` returns)"""
+    parts = [eqx.partition(m, eqx.is_array) for m in mods]
+    return eqx.combine(jax.tree_util.tree_map(lambda *ls: jnp.stack(ls), *[p for p, _ in parts]), parts[0][1])
+
+
+def jaxtr_correspondence(c, tier, rng):
+    """Gen/JaxTransforms.lean at Float against real objects:
+    * `Scan` of 1-4 stacked layers of (a) conditional layers Chain([Affine, AdditiveCondition]) (b) rational-quadratic splines with
+      perturbed parameters (c) Invert(Affine) — through `atree … GSCAN …` (Coupling / MAF / planar layers: `flows.corr_flows`, whose
+      generated factory bodies call `Flows.scanOf` = the generated Scan);
+    * `Vmap` with `in_axes` (mapped parameters) / `axis_size` (broadcast parameters) x `in_axes_condition` in {None, 0, 1, -1} with an
+      ARRAY condition — op `jaxtrvmap`."""
+    lines, wants, infos = [], [], []
+    reps = 3 if tier == "quick" else 20
+    for rep in range(reps):
+        for kind in ("cond-affine", "spline", "invert-affine"):
+            for L in (1, 2, 3, 4):
+                shape = rng.choice([(), (2,), (3,), (2, 2)]) if kind != "spline" else ()
+                n = size(shape)
+                mods, ltoks = [], []
+                w0, b0 = rng.uniform(-2, 2), rng.uniform(-1, 1)
+                W, Bb = jnp.full(shape, w0), jnp.full(shape, b0)
+                net = lambda cnd, W=W, Bb=Bb: jnp.tanh(W * cnd + Bb)   # one function object: the static part of every layer is the same
+                for i in range(L):
+                    locs = [rng.uniform(-1, 1) for _ in range(n)]
+                    scs = [rng.choice([-1, 1]) * math.exp(rng.uniform(-0.5, 0.5)) for _ in range(n)]
+                    aff = fj.affine(np.reshape(locs, shape), np.reshape(scs, shape))
+                    atoks = ["EW", str(n)] + sum((["A", f2b(l), f2b(sc)] for l, sc in zip(locs, scs)), [])
+                    if kind == "cond-affine":
+                        mods.append(B.Chain([aff, B.AdditiveCondition(net, shape, ())]))
+                        ltoks += ["CH", "2"] + atoks + ["EW", str(n)] + ["AC", f2b(w0), f2b(b0)] * n
+                    elif kind == "invert-affine":
+                        mods.append(B.Invert(aff)); ltoks += ["INV"] + atoks
+                    else:
+                        sp = fj.rqs(rng, 4, 2.0)
+                        lo, hi, xs, ys, ds = fj.rqs_params(sp)
+                        mods.append(fj.unwrap(sp)); ltoks += ["EW", "1", "Q", f2b(lo), f2b(hi), fs2b(xs), fs2b(ys), fs2b(ds)]
+                try:
+                    obj = B.Scan(_stack_modules(mods))
+                except Exception as ex:
+                    c.mismatch("real-constructor-accepts-valid-tree", kind="Scan:" + kind, exc=repr(ex)[:300]); continue
+                cond = rng.uniform(-2, 2)
+                cj = jnp.asarray(cond) if kind == "cond-affine" else None
+                xs_ = [rng.choice([0.0, 1.0, -1.0, 0.5, rng.uniform(-2, 2)]) for _ in range(n)]
+                toks = ["GSCAN", str(L)] + ltoks
+                for m in fj.METHODS:
+                    try:
+                        want = fj.call(obj, m, np.reshape(xs_, shape), cj)
+                    except Exception as ex:
+                        want = ["EXC:" + type(ex).__name__ + ":" + str(ex)[:80]]
+                    line = f"atree {m} {f2b(cond)} {ints(shape)} {fs2b(xs_)} " + " ".join(toks)
+                    lines.append(line); wants.append(want)
+                    infos.append(dict(kind="GSCAN:" + kind, layers=L, shape=shape, method=m, x=xs_, cond=cond if cj is not None else None, tree=" ".join(toks)[:300],
+                                      declared=(list(obj.shape), obj.cond_shape is not None)))
+                    c.case(("gen-scan", kind, L, m, tuple(xs_), rep), True, sample={"op": line[:240], "impl": want} if rep == 0 and L == 2 and m == "il" else None)
+                c.count("gen-scan:" + kind); c.count(f"gen-scan-layers:{L}")
+        # ---- Vmap
+        for mapped in (True, False):
+            for cax in (None, 0, 1, -1):
+                k = rng.choice([1, 2, 3])
+                cshape = rng.choice([(2,), (3,), (1,), (2, 2), (2, 3)])
+                n = size(cshape)
+                w0, b0 = rng.uniform(-2, 2), rng.uniform(-1, 1)
+                net = lambda cnd, w0=w0, b0=b0: jnp.tanh(w0 * cnd + b0)
+                if mapped:
+                    locs = np.asarray([[rng.uniform(-1, 1) for _ in range(n)] for _ in range(k)]).reshape((k,) + cshape)
+                    scs = np.asarray([[rng.choice([-1, 1]) * math.exp(rng.uniform(-0.5, 0.5)) for _ in range(n)] for _ in range(k)]).reshape((k,) + cshape)
+                    inner = eqx.filter_vmap(lambda l, sc: B.Chain([fj.affine(l, sc), B.AdditiveCondition(net, cshape, cshape)]))(jnp.asarray(locs), jnp.asarray(scs))
+                    kw = dict(in_axes=eqx.if_array(0))
+                else:
+                    l0 = np.asarray([rng.uniform(-1, 1) for _ in range(n)]).reshape(cshape)
+                    s0 = np.asarray([rng.choice([-1, 1]) * math.exp(rng.uniform(-0.5, 0.5)) for _ in range(n)]).reshape(cshape)
+                    locs, scs = np.stack([l0] * k), np.stack([s0] * k)
+                    inner = B.Chain([fj.affine(l0, s0), B.AdditiveCondition(net, cshape, cshape)])
+                    kw = dict(axis_size=k)
+                try:
+                    obj = B.Vmap(inner, in_axes_condition=cax, **kw)
+                except Exception as ex:
+                    c.mismatch("real-constructor-accepts-valid-tree", kind="Vmap", mapped=mapped, cax=cax, exc=repr(ex)[:300]); continue
+                condshape = tuple(cshape) if cax is None else tuple(np.insert(np.asarray(cshape), range(len(cshape) + 1)[cax], k).tolist())
+                if obj.cond_shape != condshape:
+                    c.mismatch("declared-cond-shape", kind="Vmap", cax=cax, declared=obj.cond_shape, expected=condshape)
+                cvals = [rng.uniform(-2, 2) for _ in range(size(condshape))]
+                xshape = (k,) + tuple(cshape)
+                xs_ = [rng.choice([0.0, 1.0, -1.0, 0.5, rng.uniform(-2, 2)]) for _ in range(size(xshape))]
+                ktoks = []
+                for i in range(k):
+                    ktoks += ["EW", str(n)] + sum((["A", f2b(l), f2b(sc)] for l, sc in zip(locs[i].ravel(), scs[i].ravel())), [])
+                for m in fj.METHODS:
+                    try:
+                        want = fj.call(obj, m, np.reshape(xs_, xshape), jnp.asarray(np.reshape(cvals, condshape)))
+                    except Exception as ex:
+                        want = ["EXC:" + type(ex).__name__ + ":" + str(ex)[:80]]
+                    line = (f"jaxtrvmap {m} {'N' if cax is None else cax} {1 if mapped else 0} {k} {ints(xshape)} {fs2b(xs_)} {ints(condshape)} {fs2b(cvals)} "
+                            f"{ints(cshape)} {f2b(w0)} {f2b(b0)} " + " ".join(ktoks))
+                    lines.append(line); wants.append(want)
+                    infos.append(dict(kind="GVMAP", mapped=mapped, cax=cax, axis_size=k, shape=xshape, method=m, x=xs_, cond=cvals, tree=" ".join(ktoks)[:300],
+                                      declared=list(obj.shape)))
+                    c.case(("gen-vmap", mapped, cax, k, cshape, m, tuple(xs_), rep), True, sample={"op": line[:240], "impl": want} if rep == 0 and cax == -1 and m == "tl" else None)
+                c.count(f"gen-vmap:{'in_axes' if mapped else 'axis_size'}:cond_axis={cax}")
+    outs = vlib.run_model(lines)
+    for line, got, want, info in zip(lines, outs, wants, infos):
+        name = "generated-scan-vs-impl" if info["kind"].startswith("GSCAN") else "generated-vmap-vs-impl"
+        if got.startswith("ERR") or any(isinstance(w, str) for w in want):
+            c.mismatch(name, op=line[:400], model=got[:200], impl=want, **info)
+            continue
+        if info["kind"].startswith("GSCAN"):
+            shape, vals, decl, dcond = parse_out_gen(got)
+            if (decl, dcond) != info["declared"]:
+                c.mismatch("generated-scan-declared-shape-vs-impl", op=line[:400], model=(decl, dcond), impl=info["declared"], tree=info["tree"])
+        else:
+            toks = got.split(" ")
+            shape = [] if toks[0] == "-" else [int(t) for t in toks[0].split(",")]
+            vals = b2fs(toks[1]) + ([b2f(toks[2])] if len(toks) == 4 else [])
+            decl = [] if toks[-1] == "-" else [int(t) for t in toks[-1].split(",")]
+            if decl != info["declared"]:
+                c.mismatch("generated-vmap-declared-shape-vs-impl", op=line[:400], model=decl, impl=info["declared"])
+        if tuple(shape) != tuple(info["shape"]) or not vlib.allclose(vals, want, **TOL):
+            c.mismatch(name, op=line[:400], model=vals, model_shape=shape, impl=want, **info)
+
+
 def corr(c, tier, rng, n_trees=None):
     own = n_trees is None
     n_trees = n_trees if n_trees is not None else (70 if tier == "quick" else 600)
@@ -382,6 +506,7 @@ def corr(c, tier, rng, n_trees=None):
         # merge_transforms on nested Transformed (1-3 levels): the generated model of the nest vs the real merged object
         c03.corr_nested(c, tier, rng, n=20 if tier == "quick" else 120)
         prim_correspondence(c, tier, rng)
+        jaxtr_correspondence(c, tier, rng)
         # the Scan inside every premade flow: the generated factory bodies (Scan = generated Chain of the UNSTACKED layers, each with
         # its own parameters and permutation) against the real Scan / Invert(Scan) of real factory-built flows, both log-det methods
         from props import flows
